@@ -70,6 +70,20 @@ impl Runner {
         mccore::panics::install();
         mccore::panics::set_subject(prop, verif_root().to_str().unwrap_or("/verif"));
         mccore::selftest::run();
+        // backstop: wall-clock and resident-set caps inside the engine (a buggy tree can blow up
+        // a state space); hitting a cap is a machinery exit, never a verdict
+        let wall_cap: u64 = std::env::var("VERIF_WALL_CAP_S").ok().and_then(|s| s.parse().ok()).unwrap_or(if tier == "thorough" { 4 * 3600 } else { 900 });
+        let rss_cap_gb: u64 = std::env::var("VERIF_RSS_CAP_GB").ok().and_then(|s| s.parse().ok()).unwrap_or(40);
+        let started = std::time::Instant::now();
+        std::thread::spawn(move || loop {
+            std::thread::sleep(std::time::Duration::from_secs(2));
+            let rss_pages: u64 = std::fs::read_to_string("/proc/self/statm").ok().and_then(|s| s.split_whitespace().nth(1).and_then(|x| x.parse().ok())).unwrap_or(0);
+            let rss_gb = rss_pages * 4096 / (1 << 30);
+            if started.elapsed().as_secs() > wall_cap || rss_gb > rss_cap_gb {
+                eprintln!("MACHINERY: internal cap hit (wall {} s / cap {} s, rss {} GB / cap {} GB)", started.elapsed().as_secs(), wall_cap, rss_gb, rss_cap_gb);
+                std::process::exit(2);
+            }
+        });
         let mut known = vec![];
         let kf = verif_root().join("known_findings.json");
         match std::fs::read_to_string(&kf) {
